@@ -332,6 +332,7 @@ func (st *c04State) history(cs *c04Case) {
 	}
 	pal := c04Pals[cs.Pal]
 	st.z = render.Renderer{}
+	st.ras.Fresh()
 	st.rect = rect
 	// alternating from case to case: the plain order on a Renderer value that was copied after
 	// it had been configured, or the target configured twice (another height first, the final
@@ -511,7 +512,11 @@ func (st *c04State) gradientOne(cbase, nbase, nstops, t int) {
 	var nreg [64]float32
 	c04Template(t, &creg, &nreg)
 	st.z = render.Renderer{}
+	st.ras.Fresh()
 	st.rect = image.Rect(0, 0, 16, 16)
+	if (cbase+nbase)%2 == 1 {
+		st.rect = image.Rect(3, 7, 19, 23) // the same size elsewhere: the paint is relative to the rectangle
+	}
 	st.z.SetRasterizer(&st.ras, st.rect)
 	st.z.Reset(ivg.DefaultViewBox, ivg.DefaultPalette)
 	st.vm.Reset(ivg.DefaultPalette)
